@@ -52,6 +52,13 @@ def run(rep, tier, seed, b):
     for _ in range(n // 4):
         x = ''.join(rng.choice(pool) for _ in range(rng.randint(0, 25)))
         items.append((presets[0], x, rng.random() < 0.3, rng.random() < 0.3))
+    # rejected symbols made of every printable character and of format-string / template fragments, at every kind of
+    # position where a symbol is processed (the error path builds a message out of the offending symbol)
+    frag = [chr(c) for c in range(0x20, 0x7f) if chr(c) not in '[]'] + ['{}', '{0}', '{x}', '{0.real}', '{!r}', '%s', '%d', '%(a)s', '%', '\\N{', '$x', '${x}', '\\', '\'"']
+    for fch in frag:
+        for sym in ('[%s]' % fch, '[C%s]' % fch, '[%sC]' % fch, '[=%s1]' % fch, '[%sexpl]' % fch):
+            for x in (sym, '[C]' + sym, '[C][Branch1]' + sym + '[C]', '[C][C][Ring1]' + sym, '[C].' + sym + '[C]', '[C][=C][Branch1][C]' + sym + '[O]'):
+                items.append((presets[0], x, rng.random() < 0.5, rng.random() < 0.5))
     # long inputs (the v2.1.2 recursion bug class) and moderately deep nesting
     for k in ((1500, 3000) if tier == 'quick' else (3000, 8000)):
         items.append((presets[0], '[C]' * k, False, False))
